@@ -158,6 +158,8 @@ def run(chk, repo: Repo):
     for n, lits, off, v in ranks:
         for bc in lits:
             for order, table, cname in ((1, t1, "FirstOrderFiniteDifference"), (2, t2, "SecondOrderFiniteDifference")):
+                if bc not in table:
+                    continue       # already reported by C20-R3 (boundary condition not implemented by this operator class)
                 rows = _row_offset(table.get(bc, {}).get("rows"))
                 inst = f"{gm.qual}.__init__/rank(bc={bc},order={order})"
                 if rows is None or off is None:
